@@ -276,17 +276,13 @@ Proof.
 Qed.
 
 Lemma make_links_spec : forall c lk,
-  make_links c = Ok lk -> c_jobs c <> [] ->
+  make_links c = Ok lk ->
   NoDup (map fst lk) /\ (forall k, In k (map fst lk) -> leaves_view k = false) /\
   length lk = length (c_jobs c).
 Proof.
-  intros c lk H Hne. unfold make_links in H.
+  intros c lk H. unfold make_links in H.
   destruct (existsb _ (c_jobs c)); [discriminate|]. destruct (c_pfmake c); [discriminate|].
-  destruct (build_links (c_jobs c) []) as [lk0|e] eqn:B; [|discriminate].
-  destruct (build_links_spec _ _ _ B) as [H1 [H2 H3]]; [constructor|intros k []|].
-  destruct lk0 as [|x lk0'].
-  - simpl in H3. destruct (c_jobs c); [congruence|discriminate].
-  - inversion H; subst. auto.
+  apply (build_links_spec _ _ _ H); [constructor|intros k []].
 Qed.
 
 (* two selected jobs with the same path are rejected *)
